@@ -123,14 +123,14 @@ OffendingPos(c, t, p) == IF DefSpellings(c.kind) = {} THEN p ELSE SetMax(Sites(t
 ExpectedFile(c) == PathOf(c.file)
 ExpectedLine(c, t, p) == LineOf(t, OffendingPos(c, t, p))
 
-\* how an observation (result class, first error's file and line) relates to the expectation
-Verdict(c, t, p, res, efile, eline) ==
-    CASE res = "ok"                   -> "accepted"
-      [] res = "panic"                -> "panic"
-      [] efile # ExpectedFile(c)      -> "other-file"
-      [] eline < ExpectedLine(c, t, p) -> "earlier"
-      [] eline > ExpectedLine(c, t, p) -> "later"
-      [] OTHER                        -> "conforms"
+\* how an observation (result class, first error's file and line) relates to the expected file and line el
+Verdict(c, el, res, efile, eline) ==
+    CASE res = "ok"              -> "accepted"
+      [] res = "panic"           -> "panic"
+      [] efile # ExpectedFile(c) -> "other-file"
+      [] eline < el              -> "earlier"
+      [] eline > el              -> "later"
+      [] OTHER                   -> "conforms"
 
 \* the text before the marker has the shape the case names
 ShapeOK(c, t, p) ==
